@@ -20,6 +20,7 @@ import (
 	"bytes"
 	"encoding/binary"
 	"errors"
+	"strings"
 	"unicode/utf16"
 
 	"github.com/sassoftware/relic/v8/lib/redblack"
@@ -224,5 +225,13 @@ func lessDirEnt(i, j interface{}) bool {
 	if e.NameLength != f.NameLength {
 		return e.NameLength < f.NameLength
 	}
-	return e.name < f.name
+	// [MS-CFB] 2.6.4: siblings of equal length are ordered by their upper-cased UTF-16 code units
+	a := utf16.Encode([]rune(strings.ToUpper(e.name)))
+	b := utf16.Encode([]rune(strings.ToUpper(f.name)))
+	for k := 0; k < len(a) && k < len(b); k++ {
+		if a[k] != b[k] {
+			return a[k] < b[k]
+		}
+	}
+	return len(a) < len(b)
 }
